@@ -53,7 +53,9 @@ func (g *fastGenerator) genUnmarshalMethod() {
 		g.unmarshalField(field, g.message, true, required)
 	}
 	g.P(`default:`)
-	if len(g.message.Extensions) > 0 {
+	// extension ranges of the message itself (proto2), not extensions that happen to be declared in its scope
+	hasExtensionRanges := g.message.Desc.ExtensionRanges().Len() > 0
+	if hasExtensionRanges {
 		c := []string{}
 		eranges := g.message.Desc.ExtensionRanges()
 		for e := 0; e < eranges.Len(); e++ {
@@ -99,7 +101,7 @@ func (g *fastGenerator) genUnmarshalMethod() {
 	g.P(`x.unknownFields = append(x.unknownFields, dAtA[iNdEx:iNdEx+skippy]...)`)
 	g.P("}")
 	g.P(`iNdEx += skippy`)
-	if len(g.message.Extensions) > 0 {
+	if hasExtensionRanges {
 		g.P(`}`)
 	}
 	g.P(`}`)
